@@ -345,3 +345,5 @@ def run(env, rep):
     if wants(rep, "C15.R4"):
         from . import C06
         C06.run(env, PrefixReport(rep, "C06.", "C15.R4.", only=("C06.R4", "C06.R2")))
+    if wants(rep, "C15.R6"):
+        chunk.setter_applies_size(m, rep, "C15.R6")
